@@ -101,6 +101,37 @@ func Discharge(units []*Unit, cfg SolverCfg) {
 	}
 	close(ch)
 	wg.Wait()
+	// vacuity guard: the facts of each unit together with its normal-return condition must not be contradictory
+	var wg2 sync.WaitGroup
+	sem := make(chan bool, par)
+	for _, u := range units {
+		if u.VC == nil {
+			continue
+		}
+		if u.ReachCond == "" {
+			u.ReachCond = "true"
+		}
+		wg2.Add(1)
+		sem <- true
+		go func(u *Unit) {
+			defer wg2.Done()
+			defer func() { <-sem }()
+			o := &Obligation{Name: u.VC.name + "/reach", Goal: "(not " + u.ReachCond + ")", NFacts: len(u.VC.facts)}
+			file := oblFile(cfg.WorkDir, o)
+			os.WriteFile(file, []byte(u.VC.script(o, false)), 0o644)
+			st, _, _ := runSolver(solvers[0], file, 2*time.Second)
+			switch st {
+			case "unsat":
+				u.Reach = "unsat"
+			case "sat":
+				u.Reach = "sat"
+			default:
+				u.Reach = "unknown"
+			}
+			os.Remove(file)
+		}(u)
+	}
+	wg2.Wait()
 }
 
 func oblFile(workdir string, o *Obligation) string {
